@@ -1,0 +1,18 @@
+//go:build verif
+
+/*
+Add-only hooks for the /verif machinery. Compiled only with `-tags verif`;
+without the tag this file does not exist for the compiler.
+*/
+
+package store
+
+// VerifKVMetadataFromBytes exposes the unexported KV metadata decoder.
+func VerifKVMetadataFromBytes(b []byte) (*KVMetadata, error) {
+	md := newReadOnlyKVMetadata()
+	err := md.unsafeReadFrom(b)
+	if err != nil {
+		return nil, err
+	}
+	return md, nil
+}
